@@ -935,3 +935,25 @@ def c15(tier, replay=None):
     sample_lines(chk, trace, 3, lambda r: {"id": r["id"], "cfg": r.get("cfg"), "outcome": r.get("outcome")})
     chk.part("runs", base=nb, faults=nf, incidents=inc)
     return chk.finish()
+
+
+# ------------------------------------------------------------------------------------------------
+def extra(tier, replay=None):
+    """Coverage beyond the listed properties (not in MANIFEST.json): spec/UseCount.tla against count_expr_uses."""
+    chk = Check("EXTRA", tier, "other")
+    T = chk.thorough()
+    corpus = expr_corpus(chk, SMALL_Q, [8])
+    recs = []
+    for rs in corpus.values():
+        recs += pv.subsample(rs, 20000 if T else 2000, pv.seed())
+    pv.write_ndjson(chk.work / "in.ndjson", recs)
+    pv.pv(["extras", "--in", chk.work / "in.ndjson", "--out", chk.work / "e1.ndjson", "--uses-out", chk.work / "uses.ndjson", "--random", 20000 if T else 2000])
+    st = batch_check(chk, "UseCount", chk.work / "uses.ndjson", lambda rj, rec: {"why": rj["why"]}, lambda rj, rec: {"record": rec, "tlc": rj})
+    chk.cov["explanation"] = "count_expr_uses on ExprGen shapes and random DAGs against the definition in spec/UseCount.tla"
+    chk.cov["evaluations"] = st["records"]
+    chk.cov["distinct_nontrivial"] = st["records"]
+    chk.cov["traces_validated_against_impl"] = st["records"]
+    chk.sample({"records": st["records"]})
+    rc = chk.finish()
+    (pv.EVID / "EXTRA.json").unlink(missing_ok=True)  # not a listed property: no evidence file
+    return rc
